@@ -142,6 +142,12 @@ def analyse_root(spec):
     alarms = []
     for a in A.alarms.values():
         alarms.append({"file": a.site[0], "line": a.site[1], "what": a.what, "func": a.ctx[0], "code": _src_line(a.site)})
+    # a run that did not converge, fell back from pruning, or met a construct it does not model is no proof:
+    # each such condition is reported as an undischarged obligation of the root
+    for (st, reason), fn in sorted(A.unsupported.items()):
+        alarms.append({"file": st[0], "line": st[1], "what": "unsupported construct: " + reason, "func": fn, "code": _src_line(st)})
+    if not getattr(A, "converged", True):
+        alarms.append({"file": "<analysis>", "line": 0, "what": f"no fixpoint within {A.rounds} rounds", "func": spec["name"], "code": "?"})
     gl = []
     for a in A.globals_mut.values():
         gl.append({"file": a.site[0], "line": a.site[1], "what": a.what, "func": a.ctx[0], "target": a.target, "code": _src_line(a.site)})
